@@ -104,6 +104,26 @@ Qed.
 Corollary accepted_reach P fuel tr s : In s (fst (accept P fuel tr)) -> reach P s.
 Proof. intros H. destruct (accept_sound _ _ _ _ H) as (ls & Hr & _). now exists ls. Qed.
 
+(* the incremental form used by the driver: closing the initial state, then one event at a time *)
+Definition sound_set (P : params) (tr : list event) (S : list state) : Prop :=
+  forall s, In s S -> exists ls, run (step P) init ls = Some s /\ obs_trace obs ls = tr.
+
+Lemma accept0_sound P fuel : sound_set P [] (fst (accept0 P fuel)).
+Proof.
+  unfold accept0, sound_set.
+  apply (close_sound state label event (step P) obs taus key init [] fuel [init]).
+  intros x [<-|[]]. exists []. now split.
+Qed.
+
+Lemma accept1_sound P fuel tr S e :
+  sound_set P tr S -> sound_set P (tr ++ [e]) (fst (accept1 P fuel S e)).
+Proof.
+  intros H. unfold accept1, sound_set.
+  apply (close_sound state label event (step P) obs taus key init (tr ++ [e]) fuel).
+  apply (succs_vis_sound state label event (step P) obs vis event_eqb event_eqb_eq init tr e S).
+  exact H.
+Qed.
+
 (* a property of all schedules' observable traces holds of every accepted trace *)
 Corollary accepted_property P fuel tr (Q : list event -> Prop) :
   (forall ls s, run (step P) init ls = Some s -> Q (obs_trace obs ls)) ->
